@@ -6,7 +6,7 @@
    proofs are re-checked against. *)
 From Coq Require Import List ZArith Bool Lia.
 From GZgen Require Import C04Consts.
-From GZ Require Import C04.Model.
+From GZ Require Import C04.Model C04.Recover.
 Import ListNotations.
 Open Scope Z_scope.
 
@@ -99,3 +99,12 @@ Proof.
   split; [reflexivity|]. split; [|reflexivity].
   repeat (constructor; [cbn; intuition discriminate|]). constructor.
 Qed.
+
+(* the RecoverHandler inside the timeout middleware answers with the status of the source; it is
+   a final status that passes checkWriteHeaderCode (the recovery's own WriteHeader never panics)
+   and can be told from both timeout replies *)
+Lemma recover_status_is_source :
+  recover_code = recover_status /\
+  bad_code recover_status = false /\ is_info recover_status = false /\
+  recover_status <> code_cancel /\ recover_status <> code_deadline.
+Proof. repeat split; try reflexivity; discriminate. Qed.
